@@ -1,6 +1,8 @@
 (* vmodel: runs the extracted Coq model on the same operation scripts as vdrive and prints the
    same canonical observation lines.  Hand-written glue: script parsing, Z<->int, printing. *)
 open Model
+(* Coq's String.string, when some model uses it, is extracted as a type named [string]: keep OCaml's *)
+type string = Stdlib.String.t
 
 let rec pos_of_int n = if n = 1 then XH else if n land 1 = 0 then XO (pos_of_int (n lsr 1)) else XI (pos_of_int (n lsr 1))
 let z_of_int n = if n = 0 then Z0 else if n > 0 then Zpos (pos_of_int n) else Zneg (pos_of_int (-n))
